@@ -506,27 +506,46 @@ def replay_once(prop_mod, path):
     raise HarnessError('no family %r in %s' % (body['family'], prop_mod.__name__))
 
 
+def _replay_subprocess(prop, path, hashseed):
+    env = dict(os.environ)
+    env['PYTHONHASHSEED'] = hashseed
+    p = subprocess.run([sys.executable, '-m', 'mcv.core', prop, '--replay', path, '--json'],
+                       cwd=VERIF_DIR, env=env, stdout=subprocess.PIPE, stderr=subprocess.PIPE,
+                       universal_newlines=True, timeout=600)
+    line = [l for l in p.stdout.splitlines() if l.startswith('REPLAY-RESULT ')]
+    if not line:
+        raise HarnessError('replay of %s produced no result (rc=%s)\n%s\n%s'
+                           % (path, p.returncode, p.stdout[-2000:], p.stderr[-2000:]))
+    return json.loads(line[-1][len('REPLAY-RESULT '):])
+
+
 def confirm_deterministic(prop, path, must=True):
-    """Replay in two fresh interpreters with different hash seeds; both must reproduce the same verdict."""
-    outs = []
-    for hs in ('0', '1'):
-        env = dict(os.environ)
-        env['PYTHONHASHSEED'] = hs
-        p = subprocess.run([sys.executable, '-m', 'mcv.core', prop, '--replay', path, '--json'],
-                           cwd=VERIF_DIR, env=env, stdout=subprocess.PIPE, stderr=subprocess.PIPE,
-                           universal_newlines=True, timeout=600)
-        line = [l for l in p.stdout.splitlines() if l.startswith('REPLAY-RESULT ')]
-        if not line:
-            raise HarnessError('replay of %s produced no result (rc=%s)\n%s\n%s'
-                               % (path, p.returncode, p.stdout[-2000:], p.stderr[-2000:]))
-        outs.append(json.loads(line[-1][len('REPLAY-RESULT '):]))
+    """
+    Replay in two fresh interpreters under the hash seed of this run: both must give the same verdict (anything else
+    is nondeterminism the harness does not own: a hard error).  A third replay under another hash seed tells whether the
+    verdict depends on the iteration order of sets / dicts of strings inside the library; such a violation is still a
+    violation (the hash seed is recorded in the replay file and restored when the file is replayed).
+    """
+    own = os.environ.get('PYTHONHASHSEED', '0')
+    if own == 'random' or not own.isdigit():
+        own = '0'
+    outs = [_replay_subprocess(prop, path, own) for _ in range(2)]
     if outs[0] != outs[1]:
         raise HarnessError('replay of %s is not deterministic: %r vs %r' % (path, outs[0], outs[1]))
     if not outs[0]['violation']:
         if not must:
             return None
         raise HarnessError('violation recorded in %s did not reproduce on replay' % path)
-    return outs[0]
+    other = _replay_subprocess(prop, path, '1' if own != '1' else '2')
+    with open(path) as f:
+        body = json.load(f)
+    body['pythonhashseed'] = own
+    body['depends_on_hash_seed'] = (other != outs[0])
+    with open(path, 'w') as f:
+        json.dump(body, f, indent=1, sort_keys=True, default=repr)
+    res = dict(outs[0])
+    res['depends_on_hash_seed'] = body['depends_on_hash_seed']
+    return res
 
 
 def run_property(prop, tier, seed, only=None):
@@ -619,6 +638,14 @@ def run_property(prop, tier, seed, only=None):
             print('VIOLATION property=%s replay=%s' % (prop, path))
             print('  family=%s sig=%s\n  %s\n  case=%s' % (v['family'], v['sig'], v['msg'],
                                                          json.dumps(v['case'], default=repr)[:400]))
+            try:
+                with open(path) as f:
+                    if json.load(f).get('depends_on_hash_seed'):
+                        print('  note: reproduces under PYTHONHASHSEED=%s (recorded in the replay file) but not under another hash '
+                              'seed: the outcome depends on set/dict iteration order inside the library'
+                              % os.environ.get('PYTHONHASHSEED', '0'))
+            except Exception:
+                pass
             reported.append(path)
             if len(reported) >= 8:
                 break
@@ -712,6 +739,17 @@ def main(argv):
     prop = a.prop.upper()
     seed = int(os.environ.get('VERIF_SEED', '0') or 0)
     if a.replay:
+        if not a.json:
+            # a recorded violation may depend on the hash seed it was found under: restore it
+            try:
+                with open(a.replay) as f:
+                    want = json.load(f).get('pythonhashseed')
+            except Exception:
+                want = None
+            if want is not None and os.environ.get('PYTHONHASHSEED') != str(want):
+                env = dict(os.environ)
+                env['PYTHONHASHSEED'] = str(want)
+                os.execve(sys.executable, [sys.executable, '-m', 'mcv.core'] + list(argv), env)
         bind_repo()
         mod = __import__('mcv.props.' + prop.lower(), fromlist=['x'])
         res = replay_once(mod, a.replay)
